@@ -57,3 +57,41 @@ p['C13']['witness_search'] = [{'scenario': 'decode_value', 'input': dict(c, also
                               [{'scenario': 'decode_value', 'input': dict(c, also_borrowed=True)} for c in cases if c.get('expect_error') and 'bytes' in c]
 json.dump(p, open('/verif/props.json', 'w'), indent=1)
 print(len(cases), 'cases')
+
+# ---- C07: send-side frames in pass-through mode, expected bytes from this file's own encoder ----
+def satom(s): b = s.encode(); return [119, len(b)] + list(b)
+def epid(p):
+    if p.get('raw') is not None: return [121] + p['raw']
+    return [88] + satom(p['node']) + be(p['id'], 4) + be(p['serial'], 4) + be(p['creation'], 4)
+def eref(r): return [90] + be(len(r['ids']), 2) + satom(r['node']) + be(r['creation'], 4) + sum([be(x, 4) for x in r['ids']], [])
+def eint(n):
+    if 0 <= n <= 255: return [97, n]
+    if -2**31 <= n < 2**31: return [98] + list(n.to_bytes(4, 'big', signed=True))
+    m = abs(n); d = []
+    while m: d.append(m & 255); m >>= 8
+    return [110, len(d), 1 if n < 0 else 0] + d
+def etuple(xs): return [104, len(xs)] + sum(xs, [])
+def passthrough(control, payload=None): return [112, 131] + control + (([131] + payload) if payload is not None else [])
+A = {'node': 'me@127.0.0.1', 'id': 7, 'serial': 0, 'creation': 1}
+P = {'node': 'peer@127.0.0.1', 'id': 41, 'serial': 2, 'creation': 3}
+inner = [88] + satom(P['node']) + be(41, 4) + be(2, 4) + be(3, 4)
+PL1 = dict(P, raw=[1, 2, 3, 4, 5, 6, 7, 8] + inner)
+PL2 = dict(P, raw=[9, 9, 9, 9, 9, 9, 9, 9] + inner)
+R = {'node': 'me@127.0.0.1', 'creation': 1, 'ids': [10, 20, 30]}
+ok = satom('ok')
+def send(to): return {'op': 'send', 'from': A, 'to': to, 'payload': {'atom': 'ok'}, 'expect_frame': passthrough(etuple([eint(2), satom(''), epid(to)]), ok)}
+fam07 = [
+ {'scenario': 'send_frames', 'input': {'ops': [send(P)]}},
+ {'scenario': 'send_frames', 'input': {'ops': [send(PL1), send(P), send(PL2), send(PL2)]}},     # equal pids, different wire forms
+ {'scenario': 'send_frames', 'input': {'ops': [
+    {'op': 'reg_send', 'from': A, 'name': 'logger', 'payload': {'tuple': [{'int': 1}, {'atom': 'x'}]}, 'expect_frame': passthrough(etuple([eint(6), epid(A), satom(''), satom('logger')]), etuple([eint(1), satom('x')]))},
+    {'op': 'link', 'from': A, 'to': P, 'expect_frame': passthrough(etuple([eint(1), epid(A), epid(P)]))},
+    {'op': 'unlink', 'from': A, 'to': P, 'id': 2**40 + 5, 'expect_frame': passthrough(etuple([eint(35), eint(2**40 + 5), epid(A), epid(P)]))},
+    {'op': 'monitor', 'from': A, 'to': P, 'ref': R, 'expect_frame': passthrough(etuple([eint(19), epid(A), epid(P), eref(R)]))},
+    {'op': 'demonitor', 'from': A, 'to': P, 'ref': R, 'expect_frame': passthrough(etuple([eint(20), epid(A), epid(P), eref(R)]))},
+ ]}},
+]
+p = json.load(open('/verif/props.json'))
+p['C07']['witness_search'] = fam07
+json.dump(p, open('/verif/props.json', 'w'), indent=1)
+print(len(fam07), 'send-side cases')
